@@ -75,7 +75,7 @@ static void phase(int depth, int mode, bool trans, const vector<int> &subset = {
             ctx.count("evaluations"); ctx.count("states"); ctx.count("transitions", depth + 1); ctx.sample(desc, 3);
             bool pending = idx[depth - 1] != PROCESS; if (pending) ctx.count("nontrivial");
             if (!as.empty()) ctx.library_abort(as, desc);
-            else if (d1 > 0) { bool l2; string a2; long d2 = run_seq(idx, mode, trans, l2, a2); if (d2 > 0) ctx.raw_violation("leak", {"site:leak after ~Router"}, desc, mcx::fmt("%ld allocations still live after the router was destroyed (repeatable)", d2)); }
+            else if (d1 > 0) { bool l2; string a2; long d2 = run_seq(idx, mode, trans, l2, a2); if (d2 > 0) ctx.raw_violation("leak", [&] { std::vector<std::string> cl{"site:leak after ~Router"}; for (int o : idx) if (o == ADD_CONN_SELF_JUNC) { cl.push_back("site:leak after ~Router & connector from a junction to itself (cyclic hyperedge)"); break; } return cl; }(), desc, mcx::fmt("%ld allocations still live after the router was destroyed (repeatable)", d2)); }
         } else ctx.count("illegal_sequences_skipped");
         ctx.done_case();
     } while (mcx::odo_next(sel, A));
